@@ -1187,6 +1187,30 @@ Definition unreadable_case (c : case) : bool :=
 Definition mismatches (cs : list case) : list Z := map c_id (filter model_mismatch cs).
 Definition spec_violations (cs : list case) : list Z := map c_id (filter spec_violation cs).
 Definition unreadable (cs : list case) : list Z := map c_id (filter unreadable_case cs).
+(* "rendered without loss", the part that is evaluated per case and not proved: a microsecond-aligned TimestampNS in
+   [0, 2^61) (until the year 2043) printed by the matrix writer reads back as exactly that many microseconds; an int64
+   millisecond timestamp in [0, 2^53) printed by the Prometheus writers reads back as exactly that many milliseconds *)
+Definition ts_us_exact (ts : Z) : bool :=
+  if ((0 <=? ts) && (ts <? 2 ^ 61) && (ts mod 1000 =? 0))%Z then
+    match read_fixed (f6_text (ts_seconds ts)) with
+    | Some (false, n, 6%nat) => (n * 1000 =? ts)%Z
+    | _ => false
+    end
+  else true.
+Definition ms_exact (t : Z) : bool :=
+  if ((0 <=? t) && (t <? 2 ^ 53))%Z then
+    match read_fixed (wfloat64_text (ms_seconds t)) with
+    | Some (false, n, k) => (n * 1000 =? t * 10 ^ Z.of_nat k)%Z
+    | _ => false
+    end
+  else true.
+Definition case_lossless (c : case) : bool :=
+  match c_kind c with
+  | KMatrix | KNumFmt => forallb (forallb (fun r => ts_us_exact (r_ts r))) (c_rows c)
+  | KPromMatrix | KPromVector => forallb (forallb (fun r => ms_exact (r_ts r))) (c_rows c)
+  | _ => true
+  end.
+Definition number_losses (cs : list case) : list Z := map c_id (filter (fun c => negb (case_lossless c)) cs).
 Definition float_disagreements (cs : list case) : list Z :=
   map c_id (filter (fun c => negb (forallb (forallb row_sf_agrees) (c_rows c))) cs).
 
